@@ -32,8 +32,24 @@ Proof. intros cats c j H. split; [now apply category_id_sound | now apply (categ
 
 (* shapes are validated before anything else: a shape/type error is the result, whatever the dictionary *)
 Theorem C17_type_check_first : forall neg cats cd d s e,
-  type_check (length cats) d s = Err e -> apply_category_filters neg cats cd d s = Err e.
-Proof. exact type_check_err_first. Qed.
+  type_check (length cats) d s = Err e ->
+  apply_category_filters neg cats cd d s = Err e /\ arrays_after neg cats cd d s = sc_list s.
+Proof. intros neg cats cd d s e H. pose proof (type_check_err_first neg cats cd d s e H) as H'. split; [exact H' | exact (err_arrays_untouched _ _ _ _ _ _ H')]. Qed.
+
+(* any error (shape, form, unknown dictionary category) leaves every row as it was *)
+Theorem C17_error_no_change : forall neg cats cd d s e,
+  apply_category_filters neg cats cd d s = Err e -> arrays_after neg cats cd d s = sc_list s.
+Proof. exact err_arrays_untouched. Qed.
+
+(* what _type_check accepts: matching forms and counts, and for every sentence tag scores of shape (tokens, categories), dependency scores (tokens, tokens + 1) *)
+Theorem C17_type_check_ok : forall n d s docs scs, type_check n d s = Ok (docs, scs) ->
+  docs = doc_list d /\ scs = sc_list s /\ length docs = length scs /\ scs <> [] /\
+  forall k ws sc, nth_error docs k = Some ws -> nth_error scs k = Some sc ->
+    ncols (tag sc) = n /\ nrows (tag sc) = length ws /\ nrows (dep sc) = length ws /\ ncols (dep sc) = S (length ws).
+Proof.
+  intros n d s docs scs H. destruct (type_check_ok n d s docs scs H) as (H1 & H2 & H3 & H4 & H5).
+  repeat split; try assumption; apply (shape_ok_iff n ws sc); now apply (H5 k).
+Qed.
 
 Theorem C17_result_was_checked : forall neg cats cd d s r,
   apply_category_filters neg cats cd d s = Ok r -> exists docs scs, type_check (length cats) d s = Ok (docs, scs).
